@@ -838,6 +838,20 @@ func runC09(e *Env) {
 	for _, t := range []string{"2", "33", "70000"} {
 		add("flag-value", "any", c09ValidDoc, "write", "--track", t)
 	}
+	// write play: every port name the build knows (crd midi port in / out) and some it does not
+	for _, port := range []string{"", "nosuch", "testdrv-out", "testdrv-in", "0", "é"} {
+		add("flag-value", "any", c09ValidDoc, "write", "play", "--port", port)
+		add("flag-value", "any", c09ValidDoc, "write", "play", "-p", port, "--track", "3")
+		add("flag-value", "fail", "- values: []\n", "write", "play", "-p", port)
+	}
+	add("flag-value", "ok", "", "midi", "port", "in")
+	add("flag-value", "ok", "", "midi", "port", "out")
+	add("flag-value", "any", "", "midi", "port", "nosuch")
+	add("flag-value", "any", "", "midi")
+	add("flag-value", "any", "", "completion", "bash")
+	add("flag-value", "any", "", "completion", "nosuch")
+	add("flag-value", "any", "", "help", "write", "event")
+	add("flag-value", "any", "", "nosuch")
 	// track counts around the 15-, 16-bit boundaries on every command that takes --track
 	for _, t := range []string{"255", "256", "257", "32767", "32768", "32769", "40000", "65535", "65536"} {
 		for _, cmd := range [][]string{{"write"}, {"write", "event"}, {"write", "parse"}, {"write", "conv", "-c", "cmt"}} {
